@@ -305,13 +305,13 @@ func c15E2ECorpus(r *Run) {
 }
 
 func c15E2ERandom(r *Run) {
-	n := r.N(160, 1500)
+	n := r.N(400, 4000)
 	r.Cases(500000, n, 0, func(c *Case, rng *Rng) {
 		var e c15E2E
 		var a, b string
 		// a rule graph with exactly one shortest rule sequence from a to b (or none)
 		for try := 0; ; try++ {
-			nv := rng.Range(2, 6)
+			nv := rng.Range(2, 7)
 			e.Rules = c15RandomGraph(rng, nv, false)
 			// declared rules are a set
 			seen := map[c15Rule]bool{}
@@ -328,6 +328,9 @@ func c15E2ERandom(r *Run) {
 				continue
 			}
 			cnt, d := c15ShortestCount(e.Rules, a, b)
+			if cnt == 1 && d < 2 && try < 40 && rng.Chance(70) {
+				continue // prefer chains of several steps
+			}
 			if cnt == 1 || (cnt == 0 && rng.Chance(10)) || try > 50 {
 				if cnt > 1 {
 					e.Rules = []c15Rule{{a, b}}
@@ -335,10 +338,10 @@ func c15E2ERandom(r *Run) {
 				}
 				e.From, e.Desired = c15Group+"/"+a, c15Group+"/"+b
 				e.NObjs = PickOne(rng, []int{0, 1, 1, 2, 2, 3})
-				faulty := rng.Chance(55)
+				faulty := rng.Chance(60)
 				for i := 0; i < d; i++ {
 					it := fmt.Sprintf("k%d", e.NObjs)
-					if faulty && rng.Chance(100/d+10) {
+					if faulty && (rng.Chance(100/d+10) || (i == d-1 && rng.Chance(40))) {
 						switch rng.Intn(8) {
 						case 0:
 							it = "x"
